@@ -1,0 +1,75 @@
+//go:build verif
+
+package app
+
+// Contracts for govc (see /verif/DESIGN.md). Comments only; compiled only with -tags verif.
+
+//@ spec
+//@ pred hostRule(h string, req string) := h == "*" || req == h || (prefixof("*.", h) && trimprefix(h, "*.") != "" && req != trimprefix(h, "*.") && suffixof("." + trimprefix(h, "*."), req))
+//@ pred hostsMatch(req string, allowed []string) := len(allowed) == 0 || (req != "" && exists i int :: 0 <= i && i < len(allowed) && hostRule(allowed[i], req))
+//@ pred methodsMatch(method string, allowed []string) := method != "" && ((len(allowed) == 0 && method == "POST") || (exists i int :: 0 <= i && i < len(allowed) && allowed[i] == method))
+//@ pred queryValuesMatch(values []string, expected string) := exists k int :: 0 <= k && k < len(values) && values[k] == expected
+//@ pred remoteIPsMatch(ip netip.Addr, ok bool, allowed []netip.Prefix) := len(allowed) == 0 || (ok && exists i int :: 0 <= i && i < len(allowed) && ext("net/netip.(Prefix).Contains", allowed[i], ip))
+//@ pred inboundRoute(ct config.ChannelType) := ct == "" || ct == "inbound"
+
+//@ func routeAcceptsIngress
+//@   ensures [C10:iff_inbound] result <==> inboundRoute(rt.ChannelType)
+
+//@ func matchHosts
+//@   loop 1 invariant [none_before] requestHost != "" && forall j int :: 0 <= j && j <= rangeindex ==> !hostRule(allowed[j], requestHost)
+//@   ensures [C10:iff_spec] result <==> hostsMatch(requestHost, allowed)
+
+//@ func matchMethods
+//@   loop 1 invariant [none_before] method != "" && len(allowed) > 0 && forall j int :: 0 <= j && j <= rangeindex ==> allowed[j] != method
+//@   ensures [C10:iff_spec] result <==> methodsMatch(method, allowed)
+
+//@ func matchQueryValues
+//@   loop 1 invariant [none_before] forall j int :: 0 <= j && j <= rangeindex ==> values[j] != expected
+//@   ensures [C10:iff_spec] result <==> queryValuesMatch(values, expected)
+
+//@ func matchRemoteIPs
+//@   loop 1 invariant [none_before] remoteIPOK && forall j int :: 0 <= j && j <= rangeindex ==> !ext("net/netip.(Prefix).Contains", allowed[j], remoteIP)
+//@   ensures [C10:iff_spec] result <==> remoteIPsMatch(remoteIP, remoteIPOK, allowed)
+
+//@ spec
+//@ ufunc normHostF(host string) string
+//@ ufunc remoteIPOf(addr string) netip.Addr
+//@ ufunc remoteIPOKF(addr string) bool
+//@ pred headerValueMatches(v string, expected string) := v == expected || (exists p int :: 0 <= p && p < len(ext("strings.Split", v, ",")) && trim(ext("strings.Split", v, ",")[p]) == expected)
+//@ pred headerValuesMatch(values []string, expected string) := exists k int :: 0 <= k && k < len(values) && headerValueMatches(values[k], expected)
+//@ pred headersMatch(h http.Header, expected []config.HeaderMatchConfig, required []string) := (forall i int :: 0 <= i && i < len(required) ==> len(h[canon(required[i])]) > 0) && (forall i int :: 0 <= i && i < len(expected) ==> len(h[canon(expected[i].Name)]) > 0 && headerValuesMatch(h[canon(expected[i].Name)], expected[i].Value))
+//@ pred queryMatch(values map[string][]string, expected []config.QueryMatchConfig, required []string) := (len(expected) == 0 && len(required) == 0) || (values != nil && (forall i int :: 0 <= i && i < len(required) ==> required[i] in values && len(values[required[i]]) > 0) && (forall i int :: 0 <= i && i < len(expected) ==> expected[i].Name in values && queryValuesMatch(values[expected[i].Name], expected[i].Value)))
+//@ pred routeMatches(rt config.CompiledRoute, r *http.Request, requestPath string) := segPrefix(rt.Path, requestPath) && hostsMatch(normHostF(r.Host), rt.Match.Hosts) && headersMatch(r.Header, rt.Match.Headers, rt.Match.HeaderExists) && queryMatch(ext("net/url.(*URL).Query", r.URL), rt.Match.Query, rt.Match.QueryExists) && remoteIPsMatch(remoteIPOf(r.RemoteAddr), remoteIPOKF(r.RemoteAddr), rt.Match.RemoteIPs) && methodsMatch(r.Method, rt.Match.Methods)
+
+//@ func normalizeHost
+//@   trusted
+//@   ensures result == normHostF(host)
+
+//@ func parseRemoteAddrIP
+//@   trusted
+//@   ensures result0 == remoteIPOf(remoteAddr) && result1 == remoteIPOKF(remoteAddr)
+
+//@ func matchHeaderValues
+//@   loop 1 invariant [none_before] forall j int :: 0 <= j && j <= rangeindex ==> !headerValueMatches(values[j], expected)
+//@   loop 2 invariant [outer] 0 <= rangeindex1 && rangeindex1 < len(values) && v == values[rangeindex1] && v != expected && (forall j int :: 0 <= j && j < rangeindex1 ==> !headerValueMatches(values[j], expected))
+//@   loop 2 invariant [inner_none] forall p int :: 0 <= p && p <= rangeindex2 ==> trim(ext("strings.Split", v, ",")[p]) != expected
+//@   ensures [C10:iff_spec] result <==> headerValuesMatch(values, expected)
+
+//@ func matchHeaders
+//@   loop 1 invariant [required_ok] forall j int :: 0 <= j && j <= rangeindex ==> len(h[canon(required[j])]) > 0
+//@   loop 2 invariant [expected_ok] (forall j int :: 0 <= j && j < len(required) ==> len(h[canon(required[j])]) > 0) && (forall j int :: 0 <= j && j <= rangeindex ==> len(h[canon(expected[j].Name)]) > 0 && headerValuesMatch(h[canon(expected[j].Name)], expected[j].Value))
+//@   ensures [C10:iff_spec] result <==> headersMatch(h, expected, required)
+
+//@ func matchQuery
+//@   loop 1 invariant [required_ok] values != nil && forall j int :: 0 <= j && j <= rangeindex ==> required[j] in values && len(values[required[j]]) > 0
+//@   loop 2 invariant [expected_ok] values != nil && (forall j int :: 0 <= j && j < len(required) ==> required[j] in values && len(values[required[j]]) > 0) && (forall j int :: 0 <= j && j <= rangeindex ==> expected[j].Name in values && queryValuesMatch(values[expected[j].Name], expected[j].Value))
+//@   ensures [C10:iff_spec] result <==> queryMatch(values, expected, required)
+
+//@ type runtimeState monitor mu
+//@   guards routes, pathToRoute, pullAuthorize, workerAuthorize, adminAuthorize, pullByRoute, workerByRoute, basicByRoute, forwardByRoute, hmacByRoute, ingressGlobalLimit, ingressRouteLimits
+
+//@ func (*runtimeState).resolveIngress
+//@   requires s != nil && r != nil && r.URL != nil
+//@   loop 1 invariant [none_before] forall j int :: 0 <= j && j <= rangeindex ==> !(inboundRoute(s.routes[j].ChannelType) && routeMatches(s.routes[j], r, requestPath))
+//@   ensures [C10:first_inbound_match] result1 ==> let i := rangeindex1 :: 0 <= i && i < len(s.routes) && result0 == s.routes[i].Path && inboundRoute(s.routes[i].ChannelType) && routeMatches(s.routes[i], r, requestPath) && (forall j int :: 0 <= j && j < i ==> !(inboundRoute(s.routes[j].ChannelType) && routeMatches(s.routes[j], r, requestPath)))
+//@   ensures [C10:none_means_no_match] !result1 ==> result0 == "" && forall j int :: 0 <= j && j < len(s.routes) ==> !(inboundRoute(s.routes[j].ChannelType) && routeMatches(s.routes[j], r, requestPath))
